@@ -51,7 +51,7 @@ def main():
         try:
             px = np.array([[[np.nan if v is None else v for v in row] for row in t] for t in c["pix"]], dtype=c["dtype"])
             da = xr.DataArray(px, dims=("time", "y", "x"), coords={"time": np.arange(px.shape[0])}, attrs={"nodata": c["nodata"]})
-            zz = xr.DataArray(np.array(c["zones"], dtype="int16"), dims=("y", "x"), attrs={"nodata": c["znodata"]})
+            zz = xr.DataArray(np.array(c["zones"], dtype=c.get("zdtype", "int16")), dims=("y", "x"), attrs={"nodata": c["znodata"]})
             ids = list(range(c["num_zones"]))
             r = da.hdc.zonal.mean(zz, ids, dtype=c["out"], dim_name="zid", name=c.get("name"))
             dd = da.chunk({"time": 1, "y": -1, "x": -1})
